@@ -161,4 +161,42 @@ ModelRemoveOK(t, withid, variant) ==
 
 \* tar extraction (torrent/session_move_torrent.go readData): name = Join(dir, entry); accepted iff dir + "/" is a prefix
 TarAccepts(dir, entry) == LET r == Res(dir, entry) IN IsPrefix(dir, r) /\ Len(r) > Len(dir)
+
+\* ---------------------------------------------------------------- (3) archives with LINK entries
+\* An archive is a SEQUENCE of entries; an entry has a type (regular file, directory, symbolic link, hard link) and a link
+\* entry carries a target.  Whether one entry escapes can depend on the entries extracted BEFORE it: a link whose NAME is
+\* inside the destination but whose TARGET is outside, followed by an entry written THROUGH it (MkdirAll and os.Create
+\* follow links).  State of one extraction:  lk = links created so far [at |-> physical path, to |-> physical target],
+\* wr = physical paths created / truncated / written,  ok = FALSE once an entry was refused (readData returns).
+\* Entry: [name : path, typ : "reg" | "dir" | "sym" | "hard", up : Nat, down : Seq(identity)]; the target of a link entry
+\* is the PLACE reached from the destination by going up `up` levels and down the names `down` (the driver writes it as an
+\* absolute or as a relative link name - the same place).
+\* Variants:  "flat"  (the code as found: every entry, whatever its type, becomes a regular file; no link is ever created)
+\*            "links" (design alternative: link entries are recreated, only the entry NAME is checked)
+TarS0 == [lk |-> {}, wr |-> {}, ok |-> TRUE]
+Place(dir, e) == SubSeq(dir, 1, Len(dir) - e.up) \o e.down
+\* physical resolution of an absolute, lexically clean identity sequence: a component that is a link continues at its target
+RECURSIVE PhysW(_, _, _, _)
+PhysW(lk, done, rest, fuel) ==
+    IF rest = <<>> THEN done
+    ELSE LET s2 == Append(done, Head(rest)) IN
+         IF fuel > 0 /\ \E x \in lk : x.at = s2
+         THEN PhysW(lk, <<>>, (CHOOSE x \in lk : x.at = s2).to \o Tail(rest), fuel - 1)
+         ELSE PhysW(lk, s2, Tail(rest), fuel)
+Phys(lk, abs) == PhysW(lk, <<>>, abs, 4)
+TarStep(variant, dir, st, e) ==
+    IF ~st.ok THEN st
+    ELSE LET lex == Res(dir, AsPath(e.name)) IN
+         IF ~(IsPrefix(dir, lex) /\ Len(lex) > Len(dir)) THEN [st EXCEPT !.ok = FALSE]       \* the prefix check on the NAME
+         ELSE IF variant = "links" /\ e.typ \in {"sym", "hard"}
+              THEN LET at == Append(Phys(st.lk, SubSeq(lex, 1, Len(lex) - 1)), lex[Len(lex)]) IN
+                   IF at \in st.wr \/ \E x \in st.lk : x.at = at THEN [st EXCEPT !.ok = FALSE]  \* EEXIST
+                   ELSE [st EXCEPT !.lk = @ \cup {[at |-> at, to |-> Place(dir, e)]}]
+              ELSE [st EXCEPT !.wr = @ \cup {Phys(st.lk, lex)}]
+RECURSIVE TarRun(_, _, _, _)
+TarRun(variant, dir, st, ar) == IF ar = <<>> THEN st ELSE TarRun(variant, dir, TarStep(variant, dir, st, Head(ar)), Tail(ar))
+Touched(st) == st.wr \cup {x.at : x \in st.lk}
+\* @obligation C07.created   nothing is created outside the destination, whatever was extracted before
+\* @obligation C07.modified  no file that exists outside the torrent's own directory / the destination is truncated or rewritten
+TarConfined(dir, st) == \A w \in Touched(st) : IsPrefix(dir, w) /\ Len(w) > Len(dir)
 =============================================================================
